@@ -19,7 +19,8 @@ EXTENDS Naturals, Sequences, FiniteSets, TLC
 
 CONSTANTS Names, Values, MaxOps,
           ReadShapes,         \* the name lists `read` is used with (sequences over Names)
-          ReadMax             \* the input line holds 0..ReadMax fields (<= 4)
+          ReadMax,            \* the input line holds 0..ReadMax fields (<= 4)
+          PairShapes          \* the name pairs used by the two-word forms (pairs over Names)
 Unset == "<unset>"
 Dirs == {"R", "A", "B", "H"}                 \* R/ , R/a , R/a/b , R/h ($HOME)
 Parent(d) == CASE d = "B" -> "A" [] d = "A" -> "R" [] d = "H" -> "R" [] OTHER -> "R"
@@ -59,6 +60,19 @@ Export(n, v) == /\ Tick([op |-> "export", n |-> n, v |-> v], 0)
 UnsetVar(n)  == /\ Tick([op |-> "unset", n |-> n], 0)
                 /\ penv' = [penv EXCEPT ![n] = Unset] /\ shv' = [shv EXCEPT ![n] = Unset]
                 /\ ref' = [ref EXCEPT ![n] = [val |-> Unset, exp |-> FALSE]] /\ DirsUnch
+\* two words of one kind on one line: `n1=v1 n2=v2` (both become shell variables), `n1=v1 n2=v2 cmd` (both only in that command's
+\* environment), `export n1=v1 n2=v2` - the words are applied left to right, so a name written twice keeps the second value
+Assign2(n1, v1, n2, v2) ==
+  /\ Tick([op |-> "assign2", n1 |-> n1, v1 |-> v1, n2 |-> n2, v2 |-> v2], 0)
+  /\ LET r1 == SetEnv(shv, penv, n1, v1) r2 == SetEnv(r1[1], r1[2], n2, v2) IN shv' = r2[1] /\ penv' = r2[2]
+  /\ ref' = RefAssign(RefAssign(ref, n1, v1), n2, v2) /\ DirsUnch
+Prefix2(n1, v1, n2, v2) == /\ Tick([op |-> "prefix2", n1 |-> n1, v1 |-> v1, n2 |-> n2, v2 |-> v2], 0)
+                           /\ UNCHANGED <<shv, penv, ref>> /\ DirsUnch
+Export2(n1, v1, n2, v2) ==
+  /\ Tick([op |-> "export2", n1 |-> n1, v1 |-> v1, n2 |-> n2, v2 |-> v2], 0)
+  /\ penv' = [[penv EXCEPT ![n1] = v1] EXCEPT ![n2] = v2] /\ UNCHANGED shv
+  /\ ref' = [[ref EXCEPT ![n1] = [val |-> v1, exp |-> TRUE]] EXCEPT ![n2] = [val |-> v2, exp |-> TRUE]] /\ DirsUnch
+
 \* read n_1 .. n_k <<< "f_1 .. f_m": n_i := f_i for i < k (the empty string when the line has fewer fields), n_k := the
 \* remaining fields f_k .. f_m joined by one blank (empty when none is left) - builtins/read.rs assigns in this order with
 \* set_env, so a name that occurs twice keeps its last assignment.  The line is a prefix of the fixed fields x y z w.
@@ -104,6 +118,7 @@ Cd(a) == /\ (a = "up" => cwd # "R")
 Next == \/ \E n \in Names, v \in Values : Assign(n, v) \/ Prefix(n, v) \/ Export(n, v)
         \/ \E n \in Names : UnsetVar(n)
         \/ \E ns \in ReadShapes, m \in 0..ReadMax : ReadN(ns, m)
+        \/ \E pr \in PairShapes, v \in Values : Assign2(pr[1], "x", pr[2], v) \/ Prefix2(pr[1], "x", pr[2], v) \/ Export2(pr[1], "x", pr[2], v)
         \/ \E a \in CdArgs : Cd(a)
 Spec == Init /\ [][Next]_vars
 
